@@ -1042,11 +1042,14 @@ class ChannelFactory:
             if endmarker is not NO_ENDMARKER_WANTED:
                 try:
                     callback(endmarker)
-                except Exception as exc:
+                except (Exception, SystemExit) as exc:
                     # we run in the receiver thread (or its epilogue): a failing
                     # callback must neither end receiving nor keep a worker
                     # from terminating
-                    self.gateway._trace("exception during endmarker callback: %s" % exc)
+                    self.gateway._trace(
+                        "exception during endmarker callback: %s"
+                        % self.gateway._geterrortext(exc)
+                    )
 
     def _local_close(self, id: int, remoteerror=None, sendonly: bool = False) -> None:
         channel = self._channels.get(id)
@@ -1096,7 +1099,8 @@ class ChannelFactory:
                 else:
                     data = loads_internal(data, channel, strconfig)
                 callback(data)  # even if channel may be already closed
-            except Exception as exc:
+            except (Exception, SystemExit) as exc:
+                # sys.exit() in a callback must not end the receiver thread
                 errortext = self.gateway._geterrortext(exc)
                 self.gateway._trace("exception during callback: %s" % errortext)
                 self.gateway._send(
